@@ -197,6 +197,14 @@ Step ==
                         <<"C09", ~e.same /\ ~multi /\ e.oldalive > 0, "C09: a fresh executor was returned while workers of the previous instance are still alive (it was not completely shut down first)">>,
                         <<"C09", ~e.same /\ e.oldeid >= 0 /\ e.eid <= e.oldeid, "C09: a fresh executor does not have a strictly larger executor_id">>,
                         <<"C09", e.same /\ (e.oldbroken \/ e.oldshutdown), "C09: a broken or shut-down instance was reused">> >>)
+       [] e.ev = "call_exc" ->
+            \* an API call (get_reusable_executor, shutdown, interpreter exit hook, map) raised instead of returning
+            /\ UNCHANGED <<kindOf, started, finished, resolved, cancelled, cancelling, running, live, crashed, crashedSettled, brokenSeen, shutdownAt, shutRet, exited, deleted, timeouts, maxw, hasTmo, multi, inCalls, tmoInCall, liveAtCall, subAfterShut>>
+            /\ Check(<< <<"C09", e.kind = "reuse" /\ ~multi, "C09: get_reusable_executor raised instead of returning an executor">>,
+                        <<"C10", e.kind = "reuse" /\ ~multi, "C10: the resize call raised instead of returning with the requested number of workers">>,
+                        <<"C05", e.kind = "shutdown" /\ ~Disturbed, "C05: shutdown() raised during a graceful run">>,
+                        <<"C06", e.kind = "shutdown", "C06: shutdown() raised">>,
+                        <<"C01", e.kind \in {"shutdown", "exit"} /\ ~Disturbed, "C01: shutdown / the interpreter exit hook raised">> >>)
        [] e.ev = "settled" ->
             /\ crashedSettled' = crashed
             /\ UNCHANGED <<kindOf, started, finished, resolved, cancelled, cancelling, running, live, crashed, brokenSeen, shutdownAt, shutRet, exited, deleted, timeouts, maxw, hasTmo, multi, inCalls, tmoInCall, liveAtCall, subAfterShut>> /\ Fine
